@@ -54,9 +54,9 @@ func lexSpec(src string) ([]stok, error) {
 			for i < len(src) && src[i] != '\n' {
 				i++
 			}
-		case unicode.IsLetter(rune(c)) || c == '_':
+		case unicode.IsLetter(rune(c)) || c == '_' || c == '$':
 			j := i
-			for j < len(src) && (unicode.IsLetter(rune(src[j])) || unicode.IsDigit(rune(src[j])) || src[j] == '_') {
+			for j < len(src) && (unicode.IsLetter(rune(src[j])) || unicode.IsDigit(rune(src[j])) || src[j] == '_' || src[j] == '$') {
 				j++
 			}
 			toks = append(toks, stok{tIdent, src[i:j], i})
